@@ -39,7 +39,7 @@ def main():
         out["dist"][k] = out["dist"].get(k, 0) + 1
     shapes = [(4,), (2, 4), (4, 2), (2, 4, 2), (8,), (2, 2, 2), (2,), (1, 4)]
     for it in range(cfg["n"]):
-        fn = ["var", "std", "prod", "cumsum"][it % 4]
+        fn = ["var", "std", "prod", "cumsum", "norm"][it % 5]
         shape = rng.choice(shapes)
         nd = len(shape)
         n = int(onp.prod(shape))
@@ -49,6 +49,12 @@ def main():
             kind = rng.random()
             axis = None if kind < 0.25 else rng.randrange(-nd, nd) if kind < 0.7 else \
                 tuple(a if rng.random() < 0.5 else a - nd for a in rng.sample(range(nd), rng.randint(1, nd)))
+        if fn == "norm" and isinstance(axis, tuple):
+            if nd < 2:
+                continue
+            axis = tuple(rng.sample(range(-nd, nd), 2))
+            if axis[0] % nd == axis[1] % nd:
+                continue
         keepdims = rng.random() < 0.4 and fn != "cumsum"
         if fn == "cumsum":
             x = onp.array([float(rng.randint(-3, 3)) for _ in range(n)]).reshape(shape)
@@ -60,6 +66,9 @@ def main():
             for row in fibs:
                 if fn == "prod":
                     vals = [rng.choice([1.0, -1.0, 2.0, -2.0, 0.5, 4.0, -0.5]) for _ in row]
+                elif fn == "norm":
+                    k = rng.choice([0.5, 1.0, 2.0, 4.0])
+                    vals = [k * rng.choice([1, -1]) for _ in row]
                 else:
                     a, k = float(rng.randint(-3, 3)), float(rng.choice([1, 2, 4])) / 2
                     half = [a] * (N // 2) + [a + 2 * k] * (N - N // 2)
@@ -69,21 +78,27 @@ def main():
                     x[p] = t
             x = x.reshape(shape)
         ddof = 0
+        if fn == "norm" and len(fibs[0]) not in (1, 4, 16):
+            continue
         if fn in ("var", "std"):
             N = len(fibs[0])
             ddof = rng.choice([d for d in range(N) if (N - d) & (N - d - 1) == 0 and (fn == "var" or d == 0)] or [0])
             if N & (N - 1) or (fn == "std" and N < 2):
                 continue
         kw = {}
-        if fn != "cumsum":
+        if fn == "norm":
+            kw = {"axis": axis}          # (the norm rules take no keepdims: passing it raises, which is allowed)
+            if rng.random() < 0.5:
+                kw["ord"] = "fro" if (isinstance(axis, tuple) or (axis is None and nd == 2)) else 2 if (axis is not None or nd == 1) else None
+        elif fn != "cumsum":
             kw = {"axis": axis, "keepdims": keepdims}
             if fn in ("var", "std"):
                 kw["ddof"] = ddof
         else:
             kw = {"axis": axis}
-        f = lambda z, fn=fn, kw=kw: getattr(anp, fn)(z, **kw)  # noqa: E731
+        f = (lambda z, kw=kw: anp.linalg.norm(z, **kw)) if fn == "norm" else (lambda z, fn=fn, kw=kw: getattr(anp, fn)(z, **kw))  # noqa: E731
         try:
-            y = onp.asarray(getattr(onp, fn)(x, **kw))
+            y = onp.asarray(onp.linalg.norm(x, **kw) if fn == "norm" else getattr(onp, fn)(x, **kw))
         except Exception as ex:
             out["skipped"].append("%s %s %r" % (fn, kw, ex))
             continue
@@ -106,7 +121,7 @@ def main():
             and bool(onp.all(onp.asarray(val) == y))
         dist(fn)
         dist("axis=" + ("None" if axis is None else "tuple" if isinstance(axis, tuple) else "int"))
-        base = {"fn": ["var", "std", "prod", "cumsum"].index(fn), "d": ddof, "tag": tag, "ok": bool(ok)}
+        base = {"fn": {"var": 0, "std": 1, "prod": 2, "cumsum": 3, "norm": 4}[fn], "d": ddof, "tag": tag, "ok": bool(ok)}
         if not ok:
             out["cases"].append(dict(base, x=[], g=[], v=[], val=[], vjp=[], jvp=None))
             continue
